@@ -40,6 +40,7 @@ word = st.tuples(st.sampled_from(LETTERS), st.sampled_from(["u", "u", "u", "l"])
 ARC_TEMPLATES = ["G2 X10 Y10 I0 J0", "G3 X10 Y10", "G2 I5 J0", "G3 I0 J-5", "G3 X-5 Y0 I10 J0", "G2 X20 Y0 I10 J0", "G2 X10 Y10 R0", "G3 X30 Y0 R4",
                  "G2 X10 Y0 R5", "G3 X0 Y10 R7", "G2 X10 Y10 R10", "G3 X7 Y3 R-12", "G2 R5", "G3 X5 Y5 I2.5 J2.5 Z1 E1 F900", "G2 X15 Y15 I1 J1",
                  "G2 X0.0001 Y0 I0.00005 J0", "G3 X1 Y1 I1500 J0", "G2 X5 Y5 R-1500", "G2 X12 Y15 I2 J0 R3", "G3 I", "G2 X Y I1"]
+NEAR_R = ["4.9998", "4.99999999", "5.0000001", "5.0004", "-4.9998", "5", "-5", "4.9995", "5.0005"]
 MISC_TEMPLATES = ["G28", "G28 X", "G28 Z0", "G92 X0 Y0 Z0 E0", "G92 E", "G92", "M206 X5 Y-5 Z0.1", "M206", "G10 P1 L2 X0", "G10 S1", "G11 S1",
                   "G1 E-5 F1800", "G1 E5", "G1 F", "G1 X15 Y15", "G1 X15.5 Y16 E3", "G1 X40 Y40", "G0 Z", "G1 X15", "G91", "G90", "G20", "G21",
                   "M117", "M117 X1 *;", "M204 S", "M205 X Y", "M73 P50 R", "G4"]
@@ -48,6 +49,11 @@ MISC_TEMPLATES = ["G28", "G28 X", "G28 Z0", "G92 X0 Y0 Z0 E0", "G92 E", "G92", "
 @st.composite
 def command(draw):
     k = draw(st.integers(0, 9))
+    if k == 0 and draw(st.booleans()):
+        # R-form arc whose radius is within rounding / a small tolerance of half the chord (chord 10 from the given start)
+        a, b = draw(st.sampled_from([(0, 0), (5, 5), (12, 3)]))
+        dx, dy = draw(st.sampled_from([(10, 0), (0, 10), (6, 8), (-8, 6)]))
+        return "G90\nG1 X%d Y%d\n%s X%d Y%d R%s" % (a, b, draw(st.sampled_from(["G2", "G3"])), a + dx, b + dy, draw(st.sampled_from(NEAR_R)))
     if k == 0:
         return draw(st.sampled_from(ARC_TEMPLATES))
     if k <= 2:
@@ -88,7 +94,8 @@ def cases(draw):
         elif draw(st.integers(0, 11)) == 0:
             prog.append(["at", "ExcludeRegion", draw(st.sampled_from(["off", "on", "", "x"]))])
         else:
-            prog.append(["g", draw(command())])
+            for c in draw(command()).split("\n"):
+                prog.append(["g", c])
     wrap = draw(st.lists(st.sampled_from(["", "", " ;c", "N", "\r\n", "\n"]), min_size=len(prog), max_size=len(prog)))
     return {"config": cfg, "regions": regions, "prog": prog, "wrap": wrap}
 
